@@ -212,6 +212,20 @@ check:
 				break check
 			}
 		}
+		// A submodule also sees the top level of the module it belongs
+		// to and of that module's other submodules.
+		if root.BelongsTo != nil && root.Modules != nil {
+			if owner := root.Modules.Modules[root.BelongsTo.Name]; owner != nil {
+				if td = d.find(owner, name); td != nil {
+					break check
+				}
+				for _, in := range owner.Include {
+					if td = d.find(in.Module, name); td != nil {
+						break check
+					}
+				}
+			}
+		}
 		var pname string
 		switch {
 		case prefix == "", prefix == rootPrefix:
